@@ -41,6 +41,7 @@ class Unit(object):
         self.notes = []
         self.preconditions = []
         self.truncated = 0
+        self.module_changes = []     # module-level / class-level state of gffutils found changed at the end of a returning path
 
     failed = 0
 
@@ -53,6 +54,10 @@ class Unit(object):
         out = []
         for p in explore(run, max_paths=max_paths):
             out.append(p)
+            if p.kind == "return":
+                for c in getattr(p.ctx, "module_changes", None) or []:
+                    if c not in self.module_changes:
+                        self.module_changes.append(c)
             self.functions |= p.ctx.inlined
             self.models_used |= p.ctx.assumed_models
             self.solver_calls += p.ctx.solver_calls
@@ -196,6 +201,12 @@ def _run_unit(arg):
         mod = importlib.import_module(modname)
         fn = dict(mod.UNITS)[uname]
         fn(U)
+        if U.paths:
+            # generic frame condition of every symbolically executed call that returns: the module-level and class-level
+            # state of gffutils (constants, switches, templates, class attributes) is what it was at import
+            ch = list(U.module_changes)
+            U.prove("%s.%s.module_state" % (prop, uname), "no returning path of this unit leaves module-level or class-level state of gffutils changed (constants, switches, SQL templates, class attributes)%s"
+                    % ((": changed " + ", ".join(ch[:6])) if ch else ""), [], z3.BoolVal(not ch), {})
     except StopUnit as e:
         U.notes.append(str(e))
     except Undecided as e:
